@@ -22,7 +22,7 @@ INFO = {
                'thorough': {'start_end': 'N in 0..6', 'high_low': 'N=3 x D=3',
                             'ellipse': 'N=2'}},
     'outside': ['IEEE rounding on the ellipse boundary (real-arithmetic model)',
-                'NaN event values', 'larger N/D (row handling is element-wise in the model)'],
+                'larger N/D (row handling is element-wise in the model)'],
     'stubs': ['np.linspace(0,1,100) in ellipse replaced by symbolic parameters t in [0,1] for the '
               'contour condition'],
     'assumptions': ['cos(x)^2+sin(x)^2=1; log10/pow10 strictly increasing and mutually inverse'],
@@ -244,6 +244,54 @@ def body_high_low_real(B, I):
     return True
 
 
+SPECIALS = [float('nan'), float('inf'), float('-inf'), 1.0, 2.0, 3.0, 1.5]
+THRESH = [None, 1.0, 2.0, 3.0, float('inf'), float('-inf')]
+
+
+def body_high_low_special(B, I):
+    """IEEE special values (NaN, +-inf) and exact threshold hits, chosen by index."""
+    import math
+    i0, i1, ih, il, as_sample = I['i0'], I['i1'], I['ih'], I['il'], I['as_sample']
+    from .. import ch
+    x0, x1 = SPECIALS[ch.pick(i0, 0, 7)], SPECIALS[ch.pick(i1, 0, 7)]
+    hi, lo = THRESH[ch.pick(ih, 0, 6)], THRESH[ch.pick(il, 0, 6)]
+    rows = [[x0, 2.0], [x1, 2.0]]
+    m = mk_meta(2)
+    m['range'] = [[1.0, 3.0], [0.0, 10.0]]
+    data = B.sample(rows, 'float64', **m) if as_sample else B.arr(rows, 'float64')
+    kw = {}
+    if hi is not None:
+        kw['high'] = hi
+    if lo is not None:
+        kw['low'] = lo
+    r = catch(B.FC.gate.high_low, data, channels=[0], full_output=True, **kw)
+    if r[0] != 'ok':
+        return False, 'high_low(special): unexpected %s' % (r[1],)
+    mask = [bool(v) for v in B.tolist(r[1].mask)]
+    h = hi if hi is not None else (3.0 if as_sample else float('inf'))
+    l = lo if lo is not None else (1.0 if as_sample else float('-inf'))
+    exp = [(l < x < h) for x in (x0, x1)]        # IEEE: NaN is never strictly between
+    if mask != exp:
+        return False, 'high_low(special): mask differs from strict predicate'
+    got = B.tolist(r[1].gated_data)
+    if len(got) != sum(exp):
+        return False, 'high_low(special): gated_data is not data[mask]'
+    return True
+
+
+def make_high_low_special(as_sample):
+    def make(env):
+        def high_low_special(i0: int, ih: int, il: int) -> bool:
+            """
+            pre: 0 <= i0 < 7 and 0 <= ih < 6 and 0 <= il < 6
+            post: _
+            """
+            return H.run('high_low_special', dict(i0=i0, i1=3, ih=ih, il=il, as_sample=as_sample),
+                         body_high_low_special)
+        return high_low_special
+    return make
+
+
 def make_high_low_real(env):
     def high_low_real(as_sample: bool, hi_given: bool, lo_given: bool) -> bool:
         """
@@ -449,6 +497,12 @@ def conditions(tier):
     ] + [
         Cond('high_low_real', make=make_high_low_real, replay=std_replay(body_high_low_real),
              timeout=120, doc='same predicate on real-valued events'),
+    ] + [
+        Cond('high_low_special_%s' % ('sample' if a else 'array'), make=make_high_low_special(a),
+             replay=std_replay(body_high_low_special), timeout=300,
+             doc='NaN, +-inf and exact threshold hits as event values/thresholds (symbolic index '
+                 'into a fixed table of IEEE special values)') for a in (False, True)
+    ] + [
         Cond('ellipse', make=make_ellipse(1 if q else 2), replay=std_replay(body_ellipse),
              timeout=240 if q else 900,
              doc='inside-or-on <=> ((dx c+dy s)/a)^2+((-dx s+dy c)/b)^2 <= 1, log10 space when '
